@@ -11,6 +11,8 @@ int ref_bit_width(int m) { int w = 0; while (m > 0) { w++; m >>= 1; } return w; 
 
 /* ---- codecs ------------------------------------------------------------------ */
 int ref_compress_form = 0;
+/* a hole of ref_pq_gap_bytes bytes in front of row group ref_pq_gap_before_rg (>= 0): all file offsets recorded from there on are shifted by it; the image stays contiguous and ref_pq_gap_pos tells where the hole belongs */
+int ref_pq_gap_before_rg = -1; uint64_t ref_pq_gap_bytes = 0; size_t ref_pq_gap_pos = 0;
 int ref_compress(int codec, const uint8_t* in, size_t n, ref_buf* out) {
     if (ref_compress_form == 1 && codec == CODEC_SNAPPY && n > 0) {      /* one literal */
         ref_buf_uleb(out, n); size_t m = n - 1;
@@ -196,9 +198,11 @@ int ref_pq_write(ref_arena* a, const ref_write_req* rq, ref_buf* out, ref_pagein
     if (rq->fl.kv) { fm.has_kv = true; fm.n_kv = 2; fm.kv = ref_alloc(a, sizeof(ref_kv) * 2); fm.kv[0].key = (ref_bin){ (const uint8_t*)"writer", 6, true }; fm.kv[0].value = (ref_bin){ (const uint8_t*)"ref_pq", 6, true }; fm.kv[1].key = (ref_bin){ (const uint8_t*)"novalue", 7, true }; }
     int np = 0;
     ref_buf_put(out, "PAR1", 4);
+    uint64_t bias = 0;
     for (int g = 0; g < rq->nrg; g++) {
+        if (g == ref_pq_gap_before_rg) { ref_pq_gap_pos = out->n; bias = ref_pq_gap_bytes; }
         ref_rg* rg = &fm.rgs[g]; rg->ncols = rq->nleaves; rg->cols = ref_alloc(a, sizeof(ref_chunk) * (size_t)rq->nleaves); rg->num_rows = rq->rg_rows[g];
-        rg->has_file_offset = true; rg->file_offset = (int64_t)out->n; rg->has_ordinal = true; rg->ordinal = (int16_t)g; rg->has_total_compressed = true;
+        rg->has_file_offset = true; rg->file_offset = (int64_t)(out->n + bias); rg->has_ordinal = true; rg->ordinal = (int16_t)g; rg->has_total_compressed = true;
         fm.num_rows += rq->rg_rows[g];
         for (int l = 0; l < rq->nleaves; l++) {
             const ref_coldata* c = &rq->cols[g * rq->nleaves + l]; const ref_chunk_layout* L = &rq->layouts[g * rq->nleaves + l];
@@ -227,9 +231,9 @@ int ref_pq_write(ref_arena* a, const ref_write_req* rq, ref_buf* out, ref_pagein
                 if (pages && np < maxpages) { ref_pageinfo pi = { hs, out->n, comp.n, g, l, 2, h.has_crc, 0, 0 }; pages[np] = pi; } np++;
                 tot_unc += (int64_t)(out->n - hs) + (int64_t)body.n;
                 ref_buf_put(out, comp.p, comp.n); ref_buf_free(&comp); ref_buf_free(&body);
-                if (L->dict_offset_present) { cm->has_dict_page_offset = true; cm->dict_page_offset = (int64_t)chunk_start; }
+                if (L->dict_offset_present) { cm->has_dict_page_offset = true; cm->dict_page_offset = (int64_t)(chunk_start + bias); }
             }
-            cm->data_page_offset = (L->data_offset_at_dict && dict) ? (int64_t)chunk_start : (int64_t)out->n;
+            cm->data_page_offset = (L->data_offset_at_dict && dict) ? (int64_t)(chunk_start + bias) : (int64_t)(out->n + bias);
             int npg = L->uniform_page_levels > 0 ? (int)((c->nlevels + L->uniform_page_levels - 1) / L->uniform_page_levels) : L->npages > 0 ? L->npages : (c->nlevels > 0 ? 1 : 0);
             int64_t lpos = 0, vpos = 0;
             for (int p = 0; p < npg; p++) {
